@@ -187,6 +187,80 @@ def handleLine (st : DriverState) (line : String) : DriverState × String :=
     match st.fs, unhexAll args with
     | some fs, some argv => (st, outcomeText (runMain fs st.cfg argv))
     | _, _ => (st, "bad-op")
+  | "fn" :: name :: args =>
+    match unhexAll args with
+    | none => (st, "bad-op")
+    | some as =>
+      if name == "parse_filesize" then
+        match as with
+        | [x] => (st, match parseFilesize x with
+            | some n => (if parseFilesizeExact x then "some " else "some~ ") ++ toString n
+            | none => "none")
+        | _ => (st, "bad-op")
+      else if name == "format_filesize" then
+        match as with
+        | [n, m] => (st, match parseU64? n with
+            | some k => (match formatFilesize k m with
+                | .ok (t, ex) => (if ex then "ok " else "ok~ ") ++ hexOfStr t
+                | .error _ => "exit2")
+            | none => "bad-op")
+        | _ => (st, "bad-op")
+      else if name == "glob" then
+        match as with
+        | [x] => (st, hexOfStr (globToPattern x))
+        | _ => (st, "bad-op")
+      else if name == "like" then
+        match as with
+        | [x] => (st, hexOfStr (likeToPattern x))
+        | _ => (st, "bad-op")
+      else if name == "rxmatch" then
+        match as with
+        | [p, subj] => (st, match rxParse p with
+            | .ok re => if re.isMatch subj then "true" else "false"
+            | .invalid => "rxerr"
+            | .unsupported => "unsupported")
+        | _ => (st, "bad-op")
+      else if name == "format_mode" then
+        match as with
+        | [m] => (st, match parseU64? m with
+            | some k => String.ofList (formatMode k) ++ " " ++ String.ofList
+                ([mode_user_read k, mode_user_write k, mode_user_exec k, mode_user_all k, mode_group_read k,
+                  mode_group_write k, mode_group_exec k, mode_group_all k, mode_other_read k, mode_other_write k,
+                  mode_other_exec k, mode_other_all k, mode_suid k, mode_sgid k, mode_is_pipe k,
+                  mode_is_char_device k, mode_is_block_device k, mode_is_socket k].map fun b => if b then '1' else '0')
+            | none => "bad-op")
+        | _ => (st, "bad-op")
+      else if name == "get_value" then
+        match as with
+        | f :: a :: rest =>
+          (st, match Function.ofStr? f with
+            | none => "bad-op"
+            | some fn =>
+              match scalarFn st.cfg.today fn a rest with
+              | .ok v => (if v.exact then "ok " else "ok~ ") ++ (reprStr v.ty) ++ " " ++ hexOfStr v.text
+              | .error (.exit2 _) => "exit2"
+              | .error (.unsupported _) => "unsupported")
+        | _ => (st, "bad-op")
+      else if name == "aggregate" then
+        match as with
+        | f :: vals =>
+          (st, match Function.ofStr? f with
+            | none => "bad-op"
+            | some fn =>
+              let rows : List Memo := vals.map fun v => [(['k'], v)]
+              let (t, ex) := aggregate fn rows ['k']
+              (if ex then "ok " else "ok~ ") ++ hexOfStr t)
+        | _ => (st, "bad-op")
+      else if name == "topn" then
+        match as with
+        | lim :: keys =>
+          (st, match parseU64? lim, keys.mapM parseU64? with
+            | some l, some ks =>
+              let t := insertAll (fun (a b : Nat) => decide (a ≤ b)) l (ks.zipIdx.map fun (k, i) => (k, i))
+              String.intercalate "," (t.values.map toString)
+            | _, _ => "bad-op")
+        | _ => (st, "bad-op")
+      else (st, "bad-op")
   | _ => (st, "bad-op")
 
 end Fsel
